@@ -17,7 +17,9 @@ correspondence : scale_rows / scale_columns (CSR, CSC, BSR; COO through the CSR 
                  condest (both branches) vs C19T.condestVec (op ext_c19t_condest); cond vs C19T.condCert on the singular triples
                  of scipy.linalg.svd, verified by the model (op ext_c19t_cond).
 search         : every utility vs an independent dense NumPy statement of its definition (all formats,
-                 copy semantics, caches, call histories); approximate_spectral_radius in [0.9 rho, rho] on
+                 copy semantics, caches, call histories), part J: the same on inputs scaled by 2^-20 .. 2^-80 / 1e-5 .. 1e-12 judged
+                 relative to their own magnitude and on BSR input of every stored block shape (R, C) in {1..4}^2;
+                 approximate_spectral_radius in [0.9 rho, rho] on
                  Hermitian matrices; condest / cond vs numpy.linalg.cond(A, 2).
 """
 import hashlib
@@ -50,8 +52,19 @@ META = {
             'calls of _approximate_eigenvalues with complex start vectors (both branches), approximate_spectral_radius with '
             'maxiter 1..15 (also 0, -1), restart 0..5 (also negative), tol 1e-1..1e-8, real / complex / wrongly sized / absent '
             'initial_guess, return_vector on and off, condest (both branches, maxiter 1 .. 25) and cond; one case per call of the '
-            'public function, non-trivial when n >= 2',
-    'search_only': ['approximate_spectral_radius >= 0.9 rho (depends on the random start vector; checked for the default or '
+            'public function, non-trivial when n >= 2; '
+            'part J (wide): every utility again (scale_rows / scale_columns, get_diagonal, symmetric_rescaling, the three filters and '
+            'truncate_rows, get_block_diag, scale_block_inverse, compute_BtBinv + filter_operator with 1..3 candidates, linalg.pinv_array '
+            'and the native pinv_array) with the matrix / scaling vector / candidates / targets / single diagonal blocks multiplied by '
+            '1, 2^-20, 2^-40, 2^-60, 2^-80, 1e-5, 1e-6, 1e-8, 1e-10, 1e-12 (independently per argument, per block row for the block '
+            'utilities, times 1 / 0.75 / 0.1 / 3.3), n <= 24, BSR input with every stored block shape (R, C) in {1..4} x {1..4} -- also '
+            'rectangular blocks on square matrices, stored shape equal to / sharing one dimension with / different from the requested '
+            'block size 1..8 --, float32 / complex64 1 x 1 blocks, cache histories; judged relative to the data\'s own magnitude',
+    'search_only': ['part J (wide): dense NumPy oracle only, no model is asked; pinv of a 1 x 1 block is 1/a (bit-exact for real data in the '
+                    'working precision, 8 eps for complex), larger blocks: numpy.linalg.pinv and the four Penrose equations relative to '
+                    'the block\'s own norm (1e-8); filter_operator residual A_f B - Bf relative to |Bf| + |A_f||B| (1e-8); filters on '
+                    'decimally rescaled real data get the 1e-12 don\'t-care band at the threshold that complex data always had',
+                    'approximate_spectral_radius >= 0.9 rho (depends on the random start vector; checked for the default or '
                     'stronger maxiter / restart / tol only)',
                     'approximate_spectral_radius <= rho (1 + 1e-10) on the real code in binary64: since E39 the exact-arithmetic '
                     'statement is a theorem about the executable model of the Krylov loop (arnoldi_model_ritz_le_rho: the model '
@@ -80,7 +93,9 @@ META = {
                     'models of the filters and of truncate_rows start from the converted CSR / CSC arrays',
                     'get_block_diag / scale_block_inverse / filter_operator: the Lean models are the dense definitions (exact '
                     'Moore-Penrose inverse, exact local inverse), compared with tolerance 1e-8',
-                    'utility calls run in forked child processes: a call that kills the interpreter is reported with its input'],
+                    'utility calls run in forked child processes: a call that kills the interpreter is reported with its input',
+                    'part J leaves out BSR input that has unsorted indices AND non-contiguous block data outside the scaling routines: '
+                    'SciPy 1.18 bsr sort_indices() (called in place by get_diagonal) permutes the indices but not such data'],
     'partial': ['truncate_rows: closed by extension E9 -- qsort_correct proves the literal quicksort model sorts every input '
                 '(fuel >= segment length - 1), truncate_row_spec_unconditional needs no certificate and '
                 'trunc_certificate_always shows the sorted-ok flag of the driver (still reported) can never be false',
@@ -2491,6 +2506,8 @@ def _ew_filter(ctx, c, it):
         if r is not None:
             ctx.violation('filter_matrix_rows(diagonal=True) returned something (documented: in place, returns None)', c)
         Rd = A.toarray()
+        if fmt == 'bsr' and list(A.blocksize) != list(c['A']['blocksize']):
+            ctx.violation(f'filter_matrix_rows(diagonal=True): BSR argument with blocks {c["A"]["blocksize"]} now has blocks {A.blocksize}', c)
         if not _wfilt_equal(Rd, ref, free, D, whole=True):
             ctx.violation(f'filter_matrix_rows({fmt}, theta={theta}, diagonal=True, lump={lump}, scale {c["scales"]}) did not filter its argument '
                           f'in place by theta*|a_ii|: expected {ref.tolist()} got {Rd.tolist()}', c)
@@ -2504,6 +2521,8 @@ def _ew_filter(ctx, c, it):
         if not sp.issparse(R) or R.format != fmt or R.shape != A.shape:
             ctx.violation(f'truncate_rows: result {getattr(R, "format", type(R).__name__)} for {fmt} input', c)
             return
+        if fmt == 'bsr' and tuple(R.blocksize) != tuple(A.blocksize):
+            ctx.violation(f'truncate_rows: BSR input with blocks {A.blocksize} came back with blocks {R.blocksize}', c)
         Rd = R.toarray()
         for i in range(n):
             stored = T.indices[T.indptr[i]:T.indptr[i + 1]].tolist()
@@ -2534,6 +2553,15 @@ def _penrose(Ak, Xk, tol=1e-8):
     return None
 
 
+def _judged(block):
+    """assumption of the check: the non-zero singular values of a judged block exceed 0.05 ||block|| (a rank deficient block
+    whose entries were rounded by a decimal rescaling / summed duplicates is numerically neither singular nor regular)"""
+    if block.shape[0] == 1:
+        return True
+    sv = np.linalg.svd(block, compute_uv=False)
+    return not ((sv > 1e-13 * sv.max()) & (sv < 0.02 * sv.max())).any()
+
+
 def _blocks_ok(out, blocks, inv):
     """-> None | (k, reason): every block judged against its own magnitude"""
     if out.shape != blocks.shape:
@@ -2543,11 +2571,8 @@ def _blocks_ok(out, blocks, inv):
             if not rclose(out[k], blocks[k], 1e-13):
                 return (k, f'block {out[k].tolist()} differs from the dense slice {blocks[k].tolist()}')
             continue
-        if blocks.shape[1] > 1:
-            sv = np.linalg.svd(blocks[k], compute_uv=False)
-            if ((sv > 1e-13 * sv.max()) & (sv < 0.02 * sv.max())).any():
-                continue       # assumption of the check: the non-zero singular values of a judged block exceed 0.05 ||block|| (a rank
-                #                deficient block whose entries were rounded by a decimal rescaling / summed duplicates is not judged)
+        if not _judged(blocks[k]):
+            continue
         ref = np.linalg.pinv(blocks[k], rcond=1e-9)
         if blocks.shape[1] == 1:
             a = blocks[k][0, 0]
@@ -2612,6 +2637,8 @@ def _ew_block(ctx, c, it):
         ref = Dref @ D
         for k in range(nb):
             rows = slice(k * bs, (k + 1) * bs)
+            if not _judged(blocks[k]):
+                continue
             sc = float(np.abs(Dref[rows]).max() * np.abs(D[rows]).max()) * bs
             if not rclose(Sd[rows], ref[rows], 1e-8, ref=max(sc, float(np.abs(ref[rows]).max()))):
                 ctx.violation(f'scale_block_inverse({tag}, block scales {c["scales"]}): block row {k} of D^-1 A: expected {ref[rows].tolist()} '
@@ -2837,6 +2864,7 @@ def run(ctx):
     part_cond(ctx, q(300, 6000))
     part_arnoldi(ctx, q(240, 4000))
     part_e52(ctx, q(320, 8000))
+    flush(ctx, run_part(ctx, 'wide', q(2400, 48000)))      # part J last: the random streams of the parts above stay as validated
     _order(ctx)
 
 
@@ -2848,7 +2876,7 @@ def _order(ctx):
 def search(ctx):
     items = []
     for name in PARTS:
-        items += run_part(ctx, name, 1500)
+        items += run_part(ctx, name, 1500 if name != 'wide' else 6000)
     flush(ctx, items)
     part_spectral(ctx, 600)
     part_cond(ctx, 1000)
